@@ -525,7 +525,10 @@ def check(ex, ctx):
             names.add(os.path.basename(fn))
             if not os.path.exists(fn):
                 return "no file %s for detection %d" % (os.path.basename(fn), i)
-            sr_, sw_, ch_, frames = _read_wav(fn)
+            try:
+                sr_, sw_, ch_, frames = _read_wav(fn)
+            except Exception as exc:
+                return "file %s for detection %d is not a readable wav: %r" % (os.path.basename(fn), i, exc)
             if (sr_, sw_, ch_, frames) != (sr, sw, ch, d):
                 return "file %s does not hold detection %d" % (os.path.basename(fn), i)
         extra = set(f for f in os.listdir(ctx.dir) if f.startswith(os.path.basename(tpl).split("{")[0])) - names
